@@ -2,7 +2,6 @@ package main
 
 import (
 	"bufio"
-	"syscall"
 	"context"
 	"crypto/sha1"
 	"encoding/hex"
@@ -19,6 +18,7 @@ import (
 	"strconv"
 	"strings"
 	"sync"
+	"syscall"
 	"time"
 )
 
@@ -83,7 +83,7 @@ type Run struct {
 	samples    []any
 	assume     []string
 	level      string
-	capture    bool     // self-test: record violations instead of reporting them
+	capture    bool // self-test: record violations instead of reporting them
 	captured   []string
 }
 
@@ -317,7 +317,9 @@ func (r *Run) finish() int {
 	}
 	b, _ := json.MarshalIndent(ev, "", " ")
 	os.MkdirAll(filepath.Join(verifDir, "evidence"), 0o755)
-	if os.Getenv("FOXCHECK_ONLY") != "" {
+	if os.Getenv("FOXCHECK_NO_EVIDENCE") != "" {
+		// bin/mutrun: a run against a deliberately changed tree must not replace the evidence of the unchanged one
+	} else if os.Getenv("FOXCHECK_ONLY") != "" {
 		// development aid: a partial run of one family never replaces the evidence of a full run
 		delete(cov, "samples")
 		cb, _ := json.Marshal(cov)
